@@ -98,4 +98,9 @@ pub mod safetensors;
 /// crate-private items so an external harness can call them directly.
 #[cfg(rten_verif)]
 #[doc(hidden)]
-pub mod verif {}
+pub mod verif {
+    #[cfg(feature = "npy")]
+    pub use crate::npy::verif_hooks as npy;
+    #[cfg(feature = "npz")]
+    pub use crate::npz::verif_npz_file_name as npz_file_name;
+}
